@@ -344,6 +344,17 @@ def check_number(ctx, case, tie=False):
                             tag='' if form != 'text' else '/numeric-text')
         if text is not None:
             round_trip(c, x2dec, text, n, f'{show(dec2x, (v,))}')
+        if form == 'text' and out[0] == 'v':
+            # whether a number typed as text is taken is not fixed by the statement; that it is the same answer for
+            # every number of the range is: a text of 11 or 12 digits is a number like one of 3
+            seen = ctx.__dict__.setdefault('_c18_numeric_text', {}).setdefault(base, {})
+            seen.setdefault('taken' if text is not None else 'refused', (v, out[1]))
+            if len(seen) == 2 and not seen.get('reported'):
+                seen['reported'] = True
+                ctx.violation('DEC2X/numeric-text-taken-for-some-numbers-of-the-range-only',
+                              f'{dec2x.upper()}({seen["taken"][0]!r}) = {seen["taken"][1]!r} but '
+                              f'{dec2x.upper()}({seen["refused"][0]!r}) = {seen["refused"][1]!r}: both are numbers of the '
+                              f'range typed as text', dict(case))
     for p in R.PLACES:
         for pv in (p, float(p)):
             out = c.call(dec2x, n, pv)
@@ -709,9 +720,41 @@ def lookalike_history(ctx):
         ctx.count('lookalike_history_calls')
 
 
+def later_workbooks(ctx):
+    """the conversions in formulas whose argument is a reference made at run time (INDIRECT, OFFSET), in several
+    workbooks of one process that hold other digits at the same address: each workbook converts its own cell"""
+    books = [('101', '17', '1F', 5), ('111', '7', 'A', 9), ('1', '777', 'FF', 100), ('1111111111', '12', '7FFFFFFFFF', -3)]
+    texts = {'BIN2DEC': ('A2', 2), 'BIN2OCT': ('A2', 2), 'BIN2HEX': ('A2', 2), 'OCT2DEC': ('A3', 8), 'OCT2BIN': ('A3', 8),
+             'OCT2HEX': ('A3', 8), 'HEX2DEC': ('A4', 16), 'HEX2OCT': ('A4', 16), 'HEX2BIN': ('A4', 16),
+             'DEC2BIN': ('A5', 10), 'DEC2OCT': ('A5', 10), 'DEC2HEX': ('A5', 10)}
+    for k, (b, o, h, d) in enumerate(books):
+        cells = {'A1': 0, 'A2': b, 'A3': o, 'A4': h, 'A5': d}
+        row = 1
+        want = {}
+        for f, (src, base) in texts.items():
+            for ref in (f'INDIRECT("{src}")', f'OFFSET(A1,{int(src[1:]) - 1},0)', src):
+                row += 1
+                cells[f'C{row}'] = f'={f}({ref})'
+                want[f'Sheet1!C{row}'] = (f, src, ref)
+        spec = {'sheets': [['Sheet1', cells]], 'names': {}, 'arrays': [], 'calc': None}
+        comp = wb.compile_mem(spec)
+        for a, (f, src, ref) in want.items():
+            got = wb.outcome(comp.evaluate, a)
+            direct = call(f.lower(), cells[src])
+            ctx.count('later_workbook_formulas')
+            ctx.case(('later-workbooks', k, a))
+            if got[0] != 'v' or direct[0] != 'v' or str(got[1]) != str(direct[1]):
+                ctx.violation('formula-with-computed-reference-differs-from-the-direct-call',
+                              f'workbook {k + 1} of the process: ={f}({ref}) with {src} = {cells[src]!r} evaluates to {got!r}, '
+                              f'{f}({cells[src]!r}) is {direct!r}', {'kind': 'later-workbooks'})
+                return
+
+
 def run(ctx):
     size = SIZES[ctx.tier]
     lookalike_history(ctx)
+    if ctx.shard % 4 == 0:
+        later_workbooks(ctx)
     # A. the whole binary range (both tiers)
     for n in range(R.lo(2), R.hi(2) + 1):
         do(ctx, {'kind': 'number', 'base': 2, 'n': n}, exhaustive=True, counter='exh:bin-range-numbers')
@@ -774,6 +817,9 @@ def run(ctx):
 
 def replay(ctx, case):
     case = dict(case)
+    if case.get('kind') == 'later-workbooks':
+        later_workbooks(ctx)
+        return
     tie = bool(case.pop('tie', False))
     CHECKS[case['kind']](ctx, case, tie)
     ctx.case(None)
